@@ -20,6 +20,7 @@ warnings.filterwarnings("ignore")
 
 def main() -> int:
     port, prefix, nthreads, rounds = int(sys.argv[1]), sys.argv[2], int(sys.argv[3]), int(sys.argv[4])
+    late_s = float(sys.argv[5]) if len(sys.argv) > 5 else 0.0
     import logging
     logging.disable(logging.CRITICAL)
     import cascade.shm.api as api
@@ -27,6 +28,18 @@ def main() -> int:
     from cascade.shm.server import LocalServer
 
     server = LocalServer(port, prefix, 64 * 1024 * 1024)
+    if late_s:
+        # one answer of the server (the grant of a read of key "late") reaches its client `late_s` seconds late
+        real_respond, done = server.respond, []
+
+        def respond(comm, address):
+            if isinstance(comm, api.GetResponse) and comm.deser_fun == "deser.of.late" and not comm.error and not done:
+                done.append(1)
+                threading.Timer(late_s, real_respond, (comm, address)).start()
+                return
+            real_respond(comm, address)
+
+        server.respond = respond
     st = threading.Thread(target=server.start, daemon=True)
     st.start()
     api.publish_client_port(port)
@@ -34,7 +47,7 @@ def main() -> int:
     errors: list[str] = []
     ops = [0]
     lock = threading.Lock()
-    barrier = threading.Barrier(nthreads)
+    barrier = threading.Barrier(nthreads)     # (the late reader does not take part in it)
 
     def note(msg: str) -> None:
         with lock:
@@ -68,7 +81,26 @@ def main() -> int:
             except Exception as e:
                 note(f"client {t}: {type(e).__name__}: {str(e)[:120]} at key {key}")
 
+    def late_reader() -> None:
+        # a read whose grant arrives late, a purge during that read, the reader closes: the dataset must be gone afterwards
+        try:
+            buf = client.allocate("late", 8, "deser.of.late")
+            buf.view()[:8] = b"latelate"
+            buf.close()
+            rb = client.get("late")
+            ok = bytes(rb.view()) == b"latelate"
+            client.purge("late")
+            rb.close()
+            time.sleep(0.2)
+            st_after = client.status("late")
+            if not ok or st_after != api.DatasetStatus.not_present:
+                note(f"late answer: bytes ok={ok}; after purge during the read and the reader's close the dataset is {st_after.name}")
+        except Exception as e:
+            note(f"late answer: {type(e).__name__}: {str(e)[:120]}")
+
     ths = [threading.Thread(target=worker, args=(t,), daemon=True) for t in range(nthreads)]
+    if late_s:
+        ths.append(threading.Thread(target=late_reader, daemon=True))
     t0 = time.time()
     for th in ths:
         th.start()
@@ -114,7 +146,7 @@ def run_tier(ctx, pid: str) -> None:
     for attempt in range(2):
         port = _free_port_base(10)
         p = subprocess.run([sys.executable, "-W", "ignore", "-m", "harness.drive.shm_clients", str(port), prefix + str(attempt), str(nthreads),
-                            str(rounds)], cwd=ROOT, stdout=subprocess.PIPE, stderr=subprocess.PIPE, text=True, timeout=300)
+                            str(rounds), "6.5" if pid == "C09" else "0"], cwd=ROOT, stdout=subprocess.PIPE, stderr=subprocess.PIPE, text=True, timeout=300)
         for f in glob.glob(f"/dev/shm/{prefix}*"):
             try:
                 os.unlink(f)
